@@ -23,6 +23,14 @@ CLAIMS = {
          "consumes handles and that one does so unconditionally, failure -> INVALID mapping, operand validation in op1/op2/op3. "
          "Call-sequence equivalence with the Rust API is not decided.",
          "HIR/MIR who-may-call and typestate rules", "3.7, 4 C19"),
+ "C16": ("E-VNM + E-EVENT + E-UNITS: the name map's push/insert, displace/remove and free discipline on every path; the "
+         "add_vars* brackets of both managers incl. the scope guard that keeps level table, var/level map and name map the same "
+         "length on every exit. The bijection over call sequences as behaviour is not decided.",
+         "MIR dominance / provenance rules", "3.8, 3.5, 4 C16"),
+ "C20": ("E-CFG: the configuration corners are type-checked under the fact extractor (quick: default + 3 extreme corners, "
+         "thorough: all 8) and E-LIN/E-WRAP (+E-CACHE/E-EVENT where a cache exists) are re-run on each; sibling agreement of the two "
+         "node types (ARITY constant, method bodies) and NoApplyCache = constant miss. Observational equivalence of results is not "
+         "decided.", "type-checking the feature matrix + sibling comparison of HIR", "3.9, 4 C20"),
  "C17": ("E-RAW on linear_hashtbl::raw: inventory of writers of the free-slot counter, +1/-1 pairing with status stores, "
          "provenance of retain's successor-is-free flag, Drain's full sweep, counter assignment when the slot array is replaced, "
          "probe-loop guards. Necessary conditions of `free <= #FREE slots` (termination of lookups, intact probe chains); set "
